@@ -593,6 +593,15 @@ def run(prop, res, tier, seed):
             return
     if prop == "C02" and os.path.exists(common.DRIVER_BIN):
         res.extra["witness_modules"] = common.build_witnesses(["Glas.Props.C02Witness"])
+        try:
+            out, rc = common.run_lines(common.DRIVER_BIN, ["la-peak"])
+            ok, peak, budget = out[0].split()
+            res.extra["look_ahead_budget"] = {"laCheck": ok, "largest_counter_value_the_analysis_allows": int(peak), "budget": int(budget),
+                                              "theorem": "Glas.Props.C02La.C02_never_stuck"}
+            if ok != "true":
+                res.add_broken("look-ahead certificate (laCheck glasProg evaluates to false in the driver)", out[0])
+        except Exception as ex:
+            res.extra["look_ahead_budget"] = "driver command la-peak failed: " + repr(ex)[:200]
     if prop in ("C01", "C02"):
         run_c01_c02(prop, res, tier, seed)
     elif prop == "C04":
